@@ -277,3 +277,84 @@ func body(sb *strings.Builder, n *Node, h int, ctr *int) {
 		}
 	}
 }
+
+func isNaN32(bits uint32) bool { return (bits>>23)&0xff == 0xff && bits&0x7fffff != 0 }
+func isNaN64(bits uint64) bool { return (bits>>52)&0x7ff == 0x7ff && bits&0xfffffffffffff != 0 }
+
+// Canon is the walk string the tree must read back as (fields sorted by tag); it is computed from
+// the tree alone, independently of the library.
+func Canon(n *Node) string {
+	switch n.Kind {
+	case "bool":
+		if n.Bool {
+			return "T"
+		}
+		return "F"
+	case "byte":
+		return fmt.Sprintf("by:%d", n.U)
+	case "i16", "i32", "i64":
+		return fmt.Sprintf("%s:%d", n.Kind, n.I)
+	case "u16", "u32", "u64":
+		return fmt.Sprintf("%s:%d", n.Kind, n.U)
+	case "f32":
+		if isNaN32(uint32(n.U)) {
+			return "f32:nan"
+		}
+		return fmt.Sprintf("f32:%d", n.U)
+	case "f64":
+		if isNaN64(n.U) {
+			return "f64:nan"
+		}
+		return fmt.Sprintf("f64:%d", n.U)
+	case "bin64":
+		return "b64:" + hx.Hex(n.Data)
+	case "bin128":
+		return "b128:" + hx.Hex(n.Data)
+	case "bin256":
+		return "b256:" + hx.Hex(n.Data)
+	case "bytes":
+		return "bs:" + hx.Hex(n.Data)
+	case "str":
+		return "s:" + hx.Hex(n.Data)
+	case "list":
+		var sb strings.Builder
+		sb.WriteString("[")
+		for _, e := range n.Elems {
+			sb.WriteString(Canon(e))
+			sb.WriteString(",")
+		}
+		sb.WriteString("]")
+		return sb.String()
+	case "msg":
+		idx := make([]int, len(n.Tags))
+		for i := range idx {
+			idx[i] = i
+		}
+		// insertion sort by tag (tags are distinct)
+		for i := 1; i < len(idx); i++ {
+			for j := i; j > 0 && n.Tags[idx[j-1]] > n.Tags[idx[j]]; j-- {
+				idx[j-1], idx[j] = idx[j], idx[j-1]
+			}
+		}
+		var sb strings.Builder
+		sb.WriteString("{")
+		for _, i := range idx {
+			fmt.Fprintf(&sb, "%d=%s,", n.Tags[i], Canon(n.Fields[i]))
+		}
+		sb.WriteString("}")
+		return sb.String()
+	}
+	return "?"
+}
+
+// Nodes counts the nodes of a tree.
+func Nodes(n *Node) int {
+	c := 1
+	for _, e := range n.Elems {
+		c += Nodes(e)
+	}
+	for _, f := range n.Fields {
+		c += Nodes(f)
+	}
+	return c
+}
